@@ -408,6 +408,20 @@ func runC09(r *ev.Run) {
 		checkFound(s, "after-reopen")
 		checkFound(s, "after-reopen-second-search")
 		s.Close()
+		if p.VecKind == "ivf" && rng.IntN(2) == 0 {
+			// the application restarts with a template it has NOT trained (yet): what is on disk was written by trained
+			// indexes and carries its own training — every durable document is still found, through every modality
+			pu := p
+			pu.ivfUntrained = true
+			su, err := pu.open(spell())
+			if err != nil {
+				rep("store.open-error", fmt.Sprintf("final reopen with an untrained template: %v", err))
+				return
+			}
+			checkFound(su, "after-reopen-with-untrained-template")
+			su.Close()
+			r.Count("reopens:with-untrained-ivf-template", 1)
+		}
 		// "in this or any later process": reopen in a NEW process (thorough tier; flat/none templates, which the helper knows)
 		if helper := os.Getenv("VERIF_HELPER"); helper != "" && (r.Thorough() || ci%10 == 0) && (p.VecKind == "flat" || p.VecKind == "") && !dead {
 			b2s := func(b bool) string {
